@@ -74,8 +74,12 @@ func gzOracle(p []byte) string {
 		return "GzErr"
 	}
 	defer zr.Close()
-	return "(GzExtra " + hx.CoqBytes(zr.Extra) + ")"
+	return "(GzExtra " + coqHex(zr.Extra) + ")"
 }
+
+// coqHex prints a byte string compactly: (hx "1f8b..") is decoded by Model/Footer.v (parsing long numeral lists is what
+// dominates the model evaluation time).
+func coqHex(b []byte) string { return fmt.Sprintf("(hx \"%x\"%%string)", b) }
 
 func tail(b []byte, n int) []byte {
 	if len(b) < n {
@@ -99,13 +103,13 @@ func coqObs(o Obs) string {
 var decCoq = map[string]string{"gzip": "DGzip", "legacy": "DLegacy", "zstd": "DZstd", "ext": "DExt"}
 
 func coqFooter(c Case, o Obs) string {
-	return fmt.Sprintf("CFooter %s %s %s %s", decCoq[c.Dec], hx.CoqBytes(c.P), gzOracle(c.P), coqObs(o))
+	return fmt.Sprintf("CFooter %s %s %s %s", decCoq[c.Dec], coqHex(c.P), gzOracle(c.P), coqObs(o))
 }
 
 func coqOpen(c Case, o Obs) string {
 	b := c.Blob
 	return fmt.Sprintf("COpen %s %s %s %s %s %s %s %s", hx.CoqZ(int64(len(b))), hx.CoqBool(c.Ext), hx.CoqZ(c.TocOff),
-		hx.CoqBytes(tail(b, 51)), gzOracle(tail(b, 51)), gzOracle(tail(b, 47)), gzOracle(tail(b, 46)), coqObs(o))
+		coqHex(tail(b, 51)), gzOracle(tail(b, 51)), gzOracle(tail(b, 47)), gzOracle(tail(b, 46)), coqObs(o))
 }
 
 // ---- generators ----
@@ -320,5 +324,125 @@ func footerCorpus() []Case {
 	// well-formed blobs
 	cs = append(cs, Case{Kind: "open", Blob: tinyBlob(nil)})
 	cs = append(cs, Case{Kind: "open", Ext: true, Blob: validFooter("ext", 0)})
+	return cs
+}
+
+// ---- deterministic sweep (every run): structured extra fields / frame footers of EVERY length ----
+//
+// For each gzip-based footer variant: extra-field bodies of every length 0..40 that end with the magic (hex or non-hex
+// filler in front), start with the magic, raw or wrapped in an SI1/SI2/LEN subfield header whose LEN is the expected
+// constant / the real length / larger / smaller / whose SI bytes are wrong; each wrapped in an otherwise valid gzip
+// member padded or cut to exactly the footer size, handed to ParseFooter of EVERY gzip-based variant's own size class
+// and (a subset) to estargz.Open at the end of a blob. For zstd:chunked: every length 24..56 with the magic at the
+// right place / elsewhere / absent, and boundary frame numbers; through Open also with a TOC-offset hint that makes
+// the fetched region shorter than the footer.
+
+var magics = map[string]string{"gzip": "STARGZ", "legacy": "STARGZ", "ext": "STARGZEXTERNALTOC"}
+
+func fillTo(n int, filler byte) []byte {
+	if n < 0 {
+		n = 0
+	}
+	return bytes.Repeat([]byte{filler}, n)
+}
+
+// bodies of total length l built around the magic
+func bodies(l int, magic string) [][]byte {
+	m := []byte(magic)
+	var out [][]byte
+	if l >= len(m) {
+		out = append(out,
+			append(fillTo(l-len(m), '0'), m...),                      // hex digits of any length + magic (ends with magic)
+			append(fillTo(l-len(m), 'z'), m...),                      // ends with magic, filler not hex
+			append(append([]byte{}, m...), fillTo(l-len(m), '0')...), // starts with magic
+		)
+		if l == len(m)+16 {
+			out = append(out, append(fillTo(16, 'f'), m...), append([]byte("7fffffffffffffff"), m...), append([]byte("-000000000000001"), m...))
+		}
+	} else {
+		out = append(out, m[:l], m[len(m)-l:]) // proper prefix / suffix of the magic
+	}
+	return out
+}
+
+func sgWrap(si1, si2 byte, slen int, body []byte) []byte {
+	h := []byte{si1, si2, 0, 0}
+	binary.LittleEndian.PutUint16(h[2:4], uint16(slen))
+	return append(h, body...)
+}
+
+func footerSweep() []Case {
+	var cs []Case
+	add := func(dec string, p []byte, open bool) {
+		cs = append(cs, Case{Kind: "footer", Dec: dec, P: p})
+		if open {
+			cs = append(cs, Case{Kind: "open", Ext: dec == "ext" || dec == "zstd", Blob: append(fillTo(9, 'x'), p...)})
+		}
+	}
+	for _, dec := range []string{"gzip", "legacy", "ext"} {
+		n := footSize[dec]
+		magic := magics[dec]
+		want := 22
+		if dec == "ext" {
+			want = 17
+		}
+		for l := 0; l <= 40; l++ {
+			for bi, body := range bodies(l, magic) {
+				// raw extra field (the legacy layout), for every variant
+				add(dec, fit(gzFooter(body), n), bi == 0 && dec == "legacy" || bi > 2)
+				// wrapped in a subfield header: LEN = expected constant, real length, larger, smaller
+				add(dec, fit(gzFooter(sgWrap('S', 'G', want, body)), n), bi == 0 && dec != "legacy" || bi > 2)
+				if bi == 0 {
+					add(dec, fit(gzFooter(sgWrap('S', 'G', l, body)), n), false)
+					add(dec, fit(gzFooter(sgWrap('S', 'G', l+3, body)), n), false)
+					if l >= 2 {
+						add(dec, fit(gzFooter(sgWrap('S', 'G', l-2, body)), n), false)
+					}
+				}
+			}
+		}
+		// right total length, inconsistent inner fields
+		good := append(fillTo(16, '0'), []byte("STARGZ")...)
+		if dec == "ext" {
+			good = []byte(magic)
+		}
+		for _, e := range [][]byte{
+			sgWrap('G', 'S', want, good), sgWrap('S', 'g', want, good), sgWrap(0, 0, want, good),
+			sgWrap('S', 'G', 0, good), sgWrap('S', 'G', 65535, good), sgWrap('S', 'G', want+1, good), sgWrap('S', 'G', want-1, good),
+			sgWrap('S', 'G', want<<8, good), // LEN in the wrong byte order
+			sgWrap('S', 'G', want, append(append([]byte{}, good[:len(good)-1]...), 'z')),
+			append(sgWrap('S', 'G', want, good[1:]), 0),                                // same total length, subfield shifted by one
+			append(sgWrap('S', 'G', want, good), sgWrap('X', 'Y', 2, []byte("ab"))...), // a second subfield after it
+			append(sgWrap('X', 'Y', 2, []byte("ab")), sgWrap('S', 'G', want, good)...), // a second subfield before it
+		} {
+			add(dec, fit(gzFooter(e), n), true)
+		}
+	}
+	// zstd:chunked skippable-frame footer
+	zmagic := []byte{0x47, 0x6e, 0x55, 0x6c, 0x49, 0x6e, 0x55, 0x78}
+	for l := 24; l <= 56; l++ {
+		for v := 0; v < 4; v++ {
+			p := make([]byte, l)
+			binary.LittleEndian.PutUint64(p[0:8], []uint64{8, 100, 1 << 63, 0}[v])
+			binary.LittleEndian.PutUint64(p[8:16], []uint64{50, 0, ^uint64(0), 1 << 40}[v])
+			switch v {
+			case 0, 1: // magic where a 40-byte footer has it
+				if l >= 40 {
+					copy(p[32:40], zmagic)
+				} else if l > 32 {
+					copy(p[32:], zmagic) // cut magic
+				}
+			case 2: // magic at the very end of the input
+				copy(p[l-8:], zmagic)
+			case 3: // no magic
+			}
+			add("zstd", p, v != 1)
+			if l < 40 && v == 0 {
+				// a TOC-offset hint that makes the fetched region shorter than the footer
+				blob := append(fillTo(30, 'x'), p...)
+				cs = append(cs, Case{Kind: "open", Ext: true, Blob: blob, TocOff: int64(len(blob) - l)})
+			}
+		}
+	}
 	return cs
 }
